@@ -1,5 +1,6 @@
 """Obligations, verdicts, evidence and known-findings plumbing."""
 import json
+import re
 import os
 import time
 
@@ -162,3 +163,26 @@ def finish(res, meta, tier, seed, t0, facts_info, out=print):
     out("%s: %d obligations, %d discharged/reviewed, %d known findings, %d violations (%.1fs)"
         % (pid, n_ob, n_dis, len(kf), len(viol), time.time() - t0))
     return exit_code
+
+
+_CLOS = re.compile(r"\{closure#\d+\}")
+
+
+def lookup_reviewed(table, key, guards=None):
+    """reviewed entry for an obligation key. Closure ordinals inside the key ({closure#2}) are positional: if the exact
+    key is absent, an entry whose key differs only in closure ordinals and whose recorded guard signature equals the
+    current one is taken (adding an unrelated closure to a function renumbers the others)."""
+    rv = table.get(key)
+    if rv is not None or "{closure#" not in key:
+        return rv
+    idx = table.get("__norm__")
+    if idx is None:
+        idx = {}
+        for k, v in table.items():
+            if isinstance(v, dict) and "{closure#" in k:
+                idx.setdefault(_CLOS.sub("{closure}", k), []).append(v)
+        table["__norm__"] = idx
+    cands = idx.get(_CLOS.sub("{closure}", key), [])
+    if guards is not None:
+        cands = [c for c in cands if c.get("guards", []) == guards]
+    return cands[0] if cands else None
